@@ -45,10 +45,10 @@ def _pushed_prefix(v):
         return None
     if v[0] == "adt" and v[2] == "Owned":
         inner = v[3][0][1]
-        if inner[0] == "call" and inner[1] in ("ToOwned::to_owned", "String::from", "From::from") and inner[2]:
+        if inner[0] == "call" and inner[1] == "String::from" and inner[2]:
             return ("indent", inner[2][0])
         return None
-    if v[0] == "call" and v[1] in ("From::from",):
+    if v[0] == "adt" and v[2] == "Borrowed":
         return ("none",)
     return None
 
@@ -136,7 +136,7 @@ def _fast(prog, rep):
     r1.check(len(pushes) == 1, "one-fast-push", "one fast-path push", str(len(pushes)), "expected one push in wrap_single_line, found %d" % len(pushes), nontrivial=False)
 
 
-ALLOWED = {"crate::core::display_width", "str::is_empty", "ToOwned::to_owned", "String::is_empty"}
+ALLOWED = {"crate::core::display_width", "str::is_empty", "String::from", "String::is_empty"}
 WRAP_PATH = ["crate::wrap::wrap", WSL, SLOW, "crate::fill::fill", "crate::fill::fill_slow_path"]
 
 
